@@ -188,20 +188,36 @@ Print Assumptions C07_invalidate_reflects_new_data.
    objects.  [rt_wf] is what Python guarantees: a call passes a live object, an address has one live owner at a time
    (reused only after the owner died), an object keeps address and model.  With the three key ingredients that
    translators/c07_realtime.py reads off the source on every run - the flag in the key (7.8), the configure() values in
-   the key of a dict holding creators, the weak reference CALLED before an id()-keyed entry is trusted - every call of
-   every well-formed sequence, cached or not, runs the SQL of its own settings and its own flag.
+   the key of a dict holding creators, a fingerprint of the object's current content in the key of a SettingsCreator object - every call of
+   EVERY sequence, cached or not, runs the SQL of its own settings and its own flag (the weak-reference liveness test is then
+   hygiene only; it is what makes the unrepaired key sound for unmutated objects, see below).
    Not modelled (X / trusted): the dialect, Path file contents changing between calls, json key order of dicts. *)
 Theorem C07_realtime_cache_transparent :
-  forall evs, rt_wf ([], []) evs = true -> Forall2 rt_out_ok evs (rt_run rt_good ([], []) evs).
-Proof. intros. eapply rt_transparent; eauto. intros e []. Qed.
+  forall evs, Forall2 rt_out_ok evs (rt_run rt_good ([], []) evs).
+Proof. intros. apply rt_transparent. intros e []. Qed.
+(* [rt_good] includes a fourth ingredient: the key of a SettingsCreator OBJECT carries a fingerprint of what the object
+   describes now.  A SettingsCreator is a mutable object keyed by id(): without the fingerprint ([rt_nofp], the tree
+   before the repair) transparency holds only for sequences in which no object is mutated between calls - that is the
+   "object keeps its model" clause of [rt_wf] - and is refuted by a two-call witness otherwise. *)
+Theorem C07_realtime_cache_transparent_for_unmutated_objects :
+  forall evs, rt_wf ([], []) evs = true -> Forall2 rt_out_ok evs (rt_run rt_nofp ([], []) evs).
+Proof. intros. eapply rt_transparent_unmutated; eauto. intros e []. Qed.
+Theorem C07_realtime_refuted_when_object_mutated :
+  exists evs, ~ Forall2 rt_out_ok evs (rt_run rt_nofp ([], []) evs).
+Proof.
+  exists [RtCall (RObj 7 1 3) true false; RtCall (RObj 7 1 5) true false].
+  intros H. apply rt_all_okb_of_Forall2 in H. vm_compute in H. discriminate H.
+Qed.
+Print Assumptions C07_realtime_cache_transparent_for_unmutated_objects.
+Print Assumptions C07_realtime_refuted_when_object_mutated.
 Print Assumptions C07_realtime_cache_transparent.
 
 (* ------------------------------------------------------------------ the finding classes, refuted on the model
    (instance: K = sqlt * nat, hash = pair - injective by construction) *)
 Definition s0 (fx : fixes) : state KI :=
   init_state KI [LPlain "inp"] 0 ["first_name"; "surname"] 0 5 6 fx.
-Definition unfixed : fixes := {| fx77 := false; fx716 := false; fx715 := false; fx718 := false; fxba := false |}.
-Definition repaired : fixes := {| fx77 := true; fx716 := true; fx715 := true; fx718 := true; fxba := true |}.
+Definition unfixed : fixes := {| fx77 := false; fx716 := false; fx715 := false; fx718 := false; fxba := false; fxco := false |}.
+Definition repaired : fixes := {| fx77 := true; fx716 := true; fx715 := true; fx718 := true; fxba := true; fxco := true |}.
 Definition predict_prov (s : state KI) : prov := result_prov KI keqbI hashI s Predict.
 
 (* (a) DESIGN 7.7: predict; register_term_frequency_lookup; predict - on the unrepaired tree the named
@@ -270,7 +286,7 @@ Print Assumptions C07_invalidate_reflects_new_data_refuted_when_results_are_reta
    of every derived table is textually unchanged: on the unrepaired tree the old __splink__df_predict is served *)
 Theorem C07_predict_equals_fresh_refuted_lookup_overwrite :
   exists ops,
-    let fx := {| fx77 := true; fx716 := true; fx715 := true; fx718 := false; fxba := false |} in
+    let fx := {| fx77 := true; fx716 := true; fx715 := true; fx718 := false; fxba := false; fxco := false |} in
     let s := run KI keqbI hashI (s0 fx) ops in
     predict_prov s <> predict_prov (fresh_of KI keqbI s 777 888).
 Proof.
@@ -287,7 +303,7 @@ Proof. vm_compute. reflexivity. Qed.
 (* (c) DESIGN 7.8: the flag is not in the key *)
 Theorem C07_realtime_cache_transparent_refuted_without_flag_in_key :
   exists evs, rt_wf ([], []) evs = true /\
-    ~ Forall2 rt_out_ok evs (rt_run {| rp_flag_in_key := false; rp_configured_in_key := true; rp_liveness_called := true |} ([], []) evs).
+    ~ Forall2 rt_out_ok evs (rt_run {| rp_flag_in_key := false; rp_configured_in_key := true; rp_liveness_called := true; rp_content_in_key := true |} ([], []) evs).
 Proof.
   exists [RtCall (RObj 7 1 3) true false; RtCall (RObj 7 1 3) true true].
   split; [reflexivity|]. intros H. apply rt_all_okb_of_Forall2 in H. vm_compute in H. discriminate H.
@@ -295,7 +311,7 @@ Qed.
 (* two settings dicts holding creator objects that differ only in ComparisonCreator.configure(...) share an entry *)
 Theorem C07_realtime_cache_transparent_refuted_without_configure_values_in_key :
   exists evs, rt_wf ([], []) evs = true /\
-    ~ Forall2 rt_out_ok evs (rt_run {| rp_flag_in_key := true; rp_configured_in_key := false; rp_liveness_called := true |} ([], []) evs).
+    ~ Forall2 rt_out_ok evs (rt_run {| rp_flag_in_key := true; rp_configured_in_key := false; rp_liveness_called := true; rp_content_in_key := true |} ([], []) evs).
 Proof.
   exists [RtCall (RDict 4 1) true false; RtCall (RDict 4 2) true false].
   split; [reflexivity|]. intros H. apply rt_all_okb_of_Forall2 in H. vm_compute in H. discriminate H.
@@ -303,7 +319,7 @@ Qed.
 (* the weak reference is not called: the entry of a collected SettingsCreator is served to a new object at its address *)
 Theorem C07_realtime_cache_transparent_refuted_without_liveness_call :
   exists evs, rt_wf ([], []) evs = true /\
-    ~ Forall2 rt_out_ok evs (rt_run {| rp_flag_in_key := true; rp_configured_in_key := true; rp_liveness_called := false |} ([], []) evs).
+    ~ Forall2 rt_out_ok evs (rt_run {| rp_flag_in_key := true; rp_configured_in_key := true; rp_liveness_called := false; rp_content_in_key := false |} ([], []) evs).
 Proof.
   exists [RtCall (RObj 7 1 3) true false; RtDel 1; RtCall (RObj 7 2 5) true false].
   split; [reflexivity|]. intros H. apply rt_all_okb_of_Forall2 in H. vm_compute in H. discriminate H.
